@@ -93,9 +93,14 @@ def _child(ob_name, tier, seed, conn):
         res = None
     except BaseException as e:  # noqa: BLE001
         try:
-            if type(e).__name__ in ("OutsideSubset", "Undecided"):
+            tb_files = [fr.filename for fr in traceback.extract_tb(e.__traceback__)]
+            repo = os.environ.get("EMINUS_REPO", "/repo")
+            in_traced_code = bool(tb_files) and (tb_files[-1].startswith(repo) or tb_files[-1].startswith("<"))
+            if type(e).__name__ in ("OutsideSubset", "Undecided") or (
+                    in_traced_code and isinstance(e, (TypeError, AttributeError, ValueError, IndexError, KeyError, NotImplementedError, ZeroDivisionError))):
                 # the code under check left the modelled subset of an engine and the obligation has no native fallback of its own:
                 # no proof on this tree - undecided, not a checker error
+                # (also: an operation that the symbolic values of an engine do not support, raised inside the traced repository code)
                 res = Result(UNDECIDED, detail=f"outside subset: {type(e).__name__}: {e}", time_s=time.time() - t0)
             else:
                 res = Result(ERROR, detail=f"{type(e).__name__}: {e}\n{traceback.format_exc()[-3000:]}", time_s=time.time() - t0)
